@@ -253,8 +253,11 @@ Definition pred_c10 (g : ghost) (w : world) (a : action) (O : oracle) (w' : worl
                         (map fst sess) then [] else [1101]) ++
             (if ahas k_rm (io_cook i) then [1102] else [])
           else
-            (* other methods never touch the jars *)
-            (if jar_eq sess (io_sess i) && jar_eq (cook_of w (q_browser r)) (io_cook i) then [] else [1103])
+            (* other methods never touch the jars (what the global remember wrapper does with a cookie on the
+               way is judged by the cookie clauses, not here) *)
+            (if wrapped_route r && ahas k_rm (cook_of w (q_browser r)) &&
+                match uid_in sess with Some _ => false | None => true end then []
+             else if jar_eq sess (io_sess i) && jar_eq (cook_of w (q_browser r)) (io_cook i) then [] else [1103])
       | _ => []
       end
   | _ => []
@@ -616,14 +619,14 @@ Definition pred_c14 (g : ghost) (w : world) (a : action) (O : oracle) (w' : worl
             (* fails without creating or updating any user, nobody logged in *)
             (match io_calls i with [] => [] | _ => [114] end) ++
             (if list_eqb user_eqb (pre_users w) (io_users i) then [] else [1141]) ++
-            (if obytes_eq (uid_in sess) (uid_in (io_sess i)) then [] else [1142])
+            (if obytes_eq (uid_before w r i) (uid_in (io_sess i)) then [] else [1142])
           else
             (* the state is spent by a matching callback whose response is written *)
             (if (io_status i =? 0) || negb (ahas k_oauth_state (io_sess i)) then [] else [1143]) ++
-            (if negb (bempty (aget f_error (q_query r))) && negb (obytes_eq (uid_in sess) (uid_in (io_sess i))) then [1144] else []) ++
+            (if negb (bempty (aget f_error (q_query r))) && negb (obytes_eq (uid_before w r i) (uid_in (io_sess i))) then [1144] else []) ++
             (* a callback that logs somebody in names precisely the (route's provider, provider-reported uid)
                pair, and storage holds that pair under that identifier *)
-            (if obytes_eq (uid_in sess) (uid_in (io_sess i)) then [] else
+            (if obytes_eq (uid_before w r i) (uid_in (io_sess i)) then [] else
              match uid_in (io_sess i) with
              | None => []
              | Some U =>
